@@ -359,6 +359,7 @@ func tt(atoms []string, f func(a map[string]bool) bool) string {
 }
 
 func c15(c *Ctx) {
+	defer c15intervalLoops(c)
 	P, R := c.P, c.R
 	R.Explain("R15.1", "exhaustiveness and agreement of the key tables: the type switch of buildSearchOp has a case for every concrete type implementing command.SearchKey; every case calls the builder for that key; handleSearchKey (and the sequence-set / list / NOT / OR productions) allocates every such type, and each keyword constant that guards an allocation is the lower-cased name of the type it allocates.")
 	R.Explain("R15.2", "declared needs: the searchData fields a key's closure reads are populated — buildSearchData fills a field only under a needs* flag, so the options given to newBuildSearchOpResult must set the flag of every field the closure reads (derived from buildSearchData and the options' apply methods, not listed by hand); an option that enables a field computed from another (header from literal) also enables that one; composite builders merge the needs of every child they evaluate.")
@@ -1176,4 +1177,22 @@ func splitTop(s string) []string {
 	}
 	out = append(out, strings.TrimSpace(s[start:]))
 	return out
+}
+
+// c15intervalLoops (R15.5 = R16.4 for the search closures).
+func c15intervalLoops(c *Ctx) {
+	R := c.R
+	R.Explain("R15.5", "UID / sequence-set search keys accept the set in any order: the loops of the search closures over the resolved []UIDInterval / []SeqInterval are left only by exhaustion or return (no break on an ordering assumption).")
+	n := 0
+	for _, f := range c.funcsInPkg("internal/state") {
+		if top := topFn(f); !strings.HasPrefix(engine.ShortName(top), "buildSearchOp") {
+			continue
+		}
+		for _, h := range engine.RangeLoopsOver(f, func(s ssa.Value) bool { return isIntervalSlice(s.Type(), "SeqInterval", "UIDInterval") }) {
+			n++
+			bad := loopEarlyExit(c.P, h, engine.LoopBody(h))
+			R.Check(bad == "", "R15.5", c.name(f)+"|interval-loop", c.P.Pos(firstPosOf(h)), "left only by exhaustion or return", "the loop over the set's intervals can be left early ("+bad+"): members written later in the set are ignored, SEARCH misses messages when the set is not ascending")
+		}
+	}
+	R.Min("R15.5", "interval loops in search closures", n, 2)
 }
